@@ -177,6 +177,21 @@ struct Shared {
     result: ExploreResult,
 }
 
+/// The monitor an exploration starts with: empty, or — when the scenario starts in a restored
+/// server — what the journal it restores from records.
+pub fn initial_monitor(sc: &Scenario, props: &[Prop]) -> Monitor {
+    match &sc.restore_journal_hex {
+        None => Monitor::new(props),
+        Some(hex) => {
+            let scratch = crate::common::Scratch::new("mon");
+            let path = scratch.path.join("j");
+            std::fs::write(&path, crate::sim::system::unhex(hex)).expect("write journal");
+            let (records, _) = crate::journal::read_journal(&path).expect("journal of a restart scenario is readable");
+            Monitor::new_restored(props, &crate::journal::reference_fold(&records))
+        }
+    }
+}
+
 pub fn explore(sc: &Scenario, opts: &ExploreOpts) -> ExploreResult {
     let sc_rc = sc.clone();
     let shared = Arc::new(Mutex::new(Shared {
@@ -196,7 +211,7 @@ pub fn explore(sc: &Scenario, opts: &ExploreOpts) -> ExploreResult {
         let mut sys = System::new(sc_local.clone());
         let obs = sys.take_obs();
         let parts = key_parts(&sys);
-        let mut mon = Monitor::new(&opts.props);
+        let mut mon = initial_monitor(sc, &opts.props);
         mon.step(&sys, None, &obs, None, &parts);
         let key = state_key(&sys, &parts, mon.state_hash());
         let mut sh = shared.lock().unwrap();
@@ -658,7 +673,7 @@ pub fn replay_with_monitors(
     let mut sys = System::new(sc_local.clone());
     let obs = sys.take_obs();
     let mut parts = key_parts(&sys);
-    let mut mon = Monitor::new(props);
+    let mut mon = initial_monitor(sc, props);
     mon.step(&sys, None, &obs, None, &parts);
     for f in mon.found.drain(..) {
         out.push(violation_from(&f, sc, &[]));
